@@ -1,11 +1,22 @@
 #!/bin/bash
-# allmutants.sh [extra check args]: run every seeded change against the check of its property (scratch worktree each),
-# print one line per change. Used after oracle or workload changes to confirm that nothing stopped being caught.
+# allmutants.sh [extra check args]: run every seeded change against the check of its property (scratch worktree each)
+# and write one JSON line per change to seeded/results.jsonl (change, exit status, classes of that property reported
+# with their run counts, runs, and the same check's result on the unchanged tree is in evidence/). Used after oracle
+# or workload changes to confirm that nothing stopped being caught; tools/mkcatchmatrix.py turns it into DESIGN.md §0.5.
 cd "$(dirname "$0")/.."
-for d in seeded/*/; do
+OUT=seeded/results.jsonl.tmp; : > $OUT
+for d in ${MUTANTS:-seeded/*/}; do
   id=$(basename $d); prop=${id%%-*}
-  out=$(TAIL=40 ./tools/trymutant.sh $d/patch.diff $prop "$@" 2>&1)
-  rc=$(echo "$out" | grep -o "exit=[0-9]*" | tail -1)
-  cls=$(echo "$out" | grep "class=$prop/" | sed 's/ first:.*//' | tr -s ' ' | tr '\n' ';' | cut -c1-200)
-  echo "$id $rc $cls"
+  out=$(TAIL=60 ./tools/trymutant.sh $d/patch.diff $prop "$@" 2>&1)
+  python3 - "$id" "$prop" >> $OUT <<PY
+import sys,re,json
+id,prop=sys.argv[1],sys.argv[2]
+out='''$(echo "$out" | sed "s/'''/'' '/g" | sed 's/\\/\\\\/g')'''
+rc=re.findall(r'exit=(\d+)',out)
+classes={m[0]:int(m[1]) for m in re.findall(r'class=(%s/[\w-]+) runs=(\d+)'%prop,out)}
+m=re.search(r'check %s tier=\w+ seed=\d+: (\d+) runs'%prop,out)
+print(json.dumps({"change":id,"property":prop,"exit":int(rc[-1]) if rc else None,"classes":classes,"runs":int(m.group(1)) if m else None,"args":"$*"}))
+PY
+  tail -1 $OUT
 done
+mv $OUT seeded/results.jsonl
